@@ -98,7 +98,8 @@ pub fn check_net(scratch: &Scratch, net: &Net, ni: usize, tier: Tier, st: &mut S
     }
     let spec = {
         let mut s = AppSpec::simple(net.clone());
-        s.uuids = Some((0..n).map(|i| format!("id-{}-{}", i * 7 + 3, ni)).collect());
+        // identifier table: row i belongs to vertex i; some tables hold an empty identifier in a middle row
+        s.uuids = Some((0..n).map(|i| if i == 1 && n >= 3 && (ni % 4 == 1 || ni % 4 == 2) { String::new() } else { format!("id-{}-{}", i * 7 + 3, ni) }).collect());
         s
     };
     let geoms: Vec<Vec<(f32, f32)>> = (0..m).map(|e| geometry(&spec, e)).collect();
@@ -112,8 +113,20 @@ pub fn check_net(scratch: &Scratch, net: &Net, ni: usize, tier: Tier, st: &mut S
     write_geoms(&gfile, m);
     let gshort = dir.join("geometries_short.txt");
     write_geoms(&gshort, m - 1);
-    let ufile = dir.join("uuids.txt");
-    std::fs::write(&ufile, spec.uuids.as_ref().unwrap().iter().map(|u| format!("{}\n", u)).collect::<String>()).expect("write");
+    // plain for odd nets, gzip for even ones (the readers differ)
+    let utext = spec.uuids.as_ref().unwrap().iter().map(|u| format!("{}\n", u)).collect::<String>();
+    let ufile = if ni % 2 == 0 {
+        let p = dir.join("uuids.txt.gz");
+        let f = std::fs::File::create(&p).expect("create");
+        let mut enc = flate2::write::GzEncoder::new(f, flate2::Compression::default());
+        std::io::Write::write_all(&mut enc, utext.as_bytes()).expect("write");
+        enc.finish().expect("finish");
+        p
+    } else {
+        let p = dir.join("uuids.txt");
+        std::fs::write(&p, utext).expect("write");
+        p
+    };
     let world = World::distance(net.clone());
     let weights: HashMap<String, f64> = [("distance".to_string(), 1.0)].into_iter().collect();
     let rates = [("distance".to_string(), crate::world::sw::Rate::Raw.real())].into_iter().collect::<HashMap<_, _>>();
@@ -174,7 +187,7 @@ pub fn check_net(scratch: &Scratch, net: &Net, ni: usize, tier: Tier, st: &mut S
                 };
                 let comp = format!("{}.{}{}{}", fname, if ai == 0 { "single_route" } else { "several_routes" }, if short { ".geometry_table_one_row_short" } else { "" }, match (do_route, do_tree) { (true, false) => ".route_only", (false, true) => ".tree_only", _ => "" });
                 let size = net.size();
-                let case = || json!({"net": net, "format": fname, "algo": algo, "geometry_table_one_row_short": short, "render_route": do_route, "render_tree": do_tree, "geometries": geoms});
+                let case = || json!({"net": net, "format": fname, "algo": algo, "geometry_table_one_row_short": short, "render_route": do_route, "render_tree": do_tree, "geometries": geoms, "uuids": spec.uuids, "uuid_file_gzip": ni % 2 == 0});
                 let uses_missing = short && ((do_route && routes.iter().any(|r| r.contains(&(m - 1)))) || (do_tree && tree_edges.iter().any(|t| t.contains(&(m - 1)))));
                 let needs_geometry = matches!(*fname, "geo_json" | "wkt" | "wkb");
                 if out.get("error").is_some() {
